@@ -211,6 +211,19 @@ def _has_uf(t, _cache={}):
     return False
 
 
+def _pc_has_uf(ex):
+    """Does the current path condition mention an uninterpreted function? (then a generic model's branch structure need not replay)"""
+    n = len(ex.pc)
+    cache = getattr(ex, "_pcuf", None)
+    if cache is None or cache[0] is not ex.pc:
+        cache = [ex.pc, 0, False]
+        ex._pcuf = cache
+    while cache[1] < n and not cache[2]:
+        cache[2] = _has_uf(ex.pc[cache[1]])
+        cache[1] += 1
+    return cache[2]
+
+
 def eval_leaf(model, x):
     """Leaf -> JSON value under the model.  Returns (value, exact) - exact False if UF-dependent."""
     if isinstance(x, Raised):
@@ -307,9 +320,14 @@ def concretise(ex, cx, extra=(), hints=()):
 
     Returns (inputs_json, model, exact: bool) or None if `extra` is infeasible."""
     extra = list(extra)
+    ex._hint_uf_exact = False
     for h in hints:
+        uf_exact = False
+        if isinstance(h, tuple) and h and h[0] == "uf_exact":
+            uf_exact, h = True, h[1]
         if ex.check(*extra, *h) == "sat":
             extra = extra + list(h)
+            ex._hint_uf_exact = uf_exact
             break
     r = ex.check(*extra)
     if r != "sat":
@@ -464,7 +482,7 @@ def run_instance(harness, name, params, *, known=(), opts=None, pinned=None):
                 continue
             vals, model, exact = got
             exp, uf_free = eval_leaf(model, obs)
-            exact = exact and uf_free
+            exact = exact and (uf_free or ex._hint_uf_exact) and (not _pc_has_uf(ex) or ex._hint_uf_exact)
             n_same = len([v for v in res["violations"] if v["label"] == lab])
             res["n_violating_paths"] = res.get("n_violating_paths", 0) + 1
             if n_same < opts.get("max_violations_per_label", 2):
@@ -476,7 +494,8 @@ def run_instance(harness, name, params, *, known=(), opts=None, pinned=None):
             if got is not None:
                 vals, model, exact = got
                 exp, uf_free = eval_leaf(model, obs)
-                res["witnesses"].append({"path": path_id, "inputs": vals, "expected": exp, "exact": exact and uf_free})
+                ok_uf = ex._hint_uf_exact or (uf_free and not _pc_has_uf(ex))
+                res["witnesses"].append({"path": path_id, "inputs": vals, "expected": exp, "exact": exact and ok_uf})
                 if len(res["samples"]) < 3:
                     res["samples"].append({"inputs": vals, "observed": exp, "obligations": [lab for lab, _ in terms][:12]})
         if tb and outcome not in res.get("tracebacks", {}):
